@@ -3,9 +3,11 @@ C39 — The formatter preserves meaning and comments and is idempotent.
 
 Model: Verif.Model.Front.Layout (documents and layout of turbolent/prettier, external, modelled),
 Verif.Model.Front.Trivia (ports of the post-passes stripTrailingLineWhitespace / collapseBlankLines).
-Idempotence and the comment attachment are NOT modelled: correspondence (stream `fmt`) only.
+Verif.Model.Front.Attach (the slot-assignment loops of trivia.attachLevel; modelled, not tied by a stream of
+its own).  Idempotence is NOT modelled: correspondence (stream `fmt`) only.
 -/
 import Verif.Proofs.Layout
+import Verif.Proofs.Attach
 namespace Verif.Properties.C39
 open Verif.Model.Front.Layout Verif.Model.Front.Trivia Verif.Proofs.Layout
 
@@ -61,5 +63,41 @@ example : collapse 1 (ascii "/* a\n b */") = ascii "/* a\n b */" := by decide
 /-- `stripTrailingLineWhitespace` leaves the trailing blanks of a line comment alone (the trailing
     blanks of `// t   ` are removed elsewhere, in the comment rendering — CC finding) -/
 example : strip (ascii "x // t   \n   \ny") = ascii "x // t   \n\ny" := by decide
+
+/-! ## Comment attachment -/
+
+open Verif.Model.Front.Attach in
+/-- `comments_once_partial`: on the model of `trivia.Attach` / `attachLevel` (the four loops, the recursion
+    into the children with the left-over rule, the header and footer rules), for every forest of elements,
+    every list of comment groups and every recursion bound: the groups of the performed slot assignments
+    (header, leading, same-line, trailing, footer), in the order they are performed, are exactly the input
+    groups — every scanned comment group is assigned to exactly one slot, none is dropped, none duplicated,
+    whatever the positions say (no sortedness or nesting assumption is needed).
+    `_partial`: (1) the model records the assignment *sequence*; in the Go code `cm.SameLine` is a map, so a
+    second same-line assignment to the same element would overwrite the first (the model has no such
+    overwrite when element identities are distinct and every element is visited once — not proved);
+    (2) the three `hoist…` post-passes of `Attach` and the rendering of the slots (`CommentMap.Wrap` /
+    `Take`: every slot emitted once) are not modelled — the recorded findings `comment-next-to-else-dropped`
+    and `comment-inside-string-template-dropped` live there; (3) the model is not tied to /repo by a stream
+    of its own: per input, the `fmt` stream's Go-only oracle checks that every input comment occurs exactly
+    once in the formatted output. -/
+theorem comments_once_partial (fuel : Nat) (decls : List N) (gs : List G) :
+    groupsOf (attach fuel decls gs) = gs :=
+  Verif.Proofs.Attach.attach_cons fuel decls gs
+
+open Verif.Model.Front.Attach in
+/-- non-vacuity: two declarations, the first with a child; a header comment, a leading comment, a comment
+    inside the first declaration after its child (trailing of the child), a same-line comment, a comment
+    between the declarations after a blank line (leading of the second), a footer comment -/
+example :
+    let child := N.mk 11 25 3 30 29 3 []
+    let d1 := N.mk 1 20 3 40 39 4 [child]
+    let d2 := N.mk 2 80 8 90 89 8 []
+    let gs : List G := [⟨100, 0, 5, 1, 1⟩, ⟨101, 10, 15, 2, 2⟩, ⟨102, 32, 36, 4, 4⟩, ⟨103, 42, 48, 4, 4⟩,
+      ⟨104, 60, 70, 7, 7⟩, ⟨105, 120, 130, 12, 12⟩]
+    (attach 3 [d1, d2] gs).map (fun a => (a.slot, a.node, a.g.id)) =
+      [(.header, 0, 100), (.leading, 1, 101), (.trailing, 11, 102), (.sameLine, 1, 103), (.leading, 2, 104),
+       (.footer, 0, 105)] := by
+  decide
 
 end Verif.Properties.C39
